@@ -741,7 +741,8 @@ def _check_node(B, pts, top, fd, ctx, probe=True):
                     raise Violation(
                         sig('moreau-crash'),
                         '{}: {}'.format(type(e).__name__, str(e)[:200]))
-                raise
+                else:
+                    raise
             if p1 is not None:
                 if p1 not in space or p2 not in space:
                     raise Violation(sig('moreau'),
